@@ -62,6 +62,7 @@ Non-trivial = object with >= 1 non-plain byte or nesting, or document with >= 2 
     sweeps(c);
     soups(c);
     documents(c);
+    dirty_documents(c);
 }
 
 fn check_object(c: &mut Ctx, o: &Object, rest: &[u8], tag: &str) {
@@ -202,6 +203,56 @@ pub fn compare_docs(orig: &Document, back: &Document, xref_stream: bool) -> Opti
 }
 fn skipped(o: &Object) -> bool { matches!(o.type_name(), Ok(b"ObjStm") | Ok(b"XRef") | Ok(b"Linearized")) }
 fn is_xref_stream(o: &Object) -> bool { matches!(o, Object::Stream(s) if s.dict.has_type(b"XRef")) }
+
+/// documents that have ALREADY been saved once and were edited afterwards (the trailer carries the bookkeeping of the
+/// previous save, max_id was raised by a cross-reference-stream save), then saved again WITHOUT a reload in between:
+/// objects added at the top with a generation other than 0, replaced and removed objects, the cross-reference kind
+/// switched between the saves. `save` must not trust anything it left behind.
+fn dirty_documents(c: &mut Ctx) {
+    let n = c.n(300, 4000);
+    for i in 0..n {
+        let Some(mut r) = c.case("dirty", i) else { continue };
+        let mut doc = gen_doc(&mut r);
+        let first_stream = i % 2 == 0;
+        doc.reference_table.cross_reference_type = if first_stream { XrefType::CrossReferenceStream } else { XrefType::CrossReferenceTable };
+        let saves = 1 + r.usize(2);
+        let mut ok = true;
+        for _ in 0..saves { let mut sink = Vec::new(); if !matches!(guard(|| doc.save_to(&mut sink)), Ok(Ok(()))) { ok = false; break; } }
+        if !ok { c.count("dirty.first_save_error"); continue; }
+        for _ in 0..r.usize(5) {
+            match r.below(5) {
+                0 => { let id = (doc.max_id + 1, 1 + r.below(3) as u16); doc.set_object(id, gen_obj(&mut r, 3)); c.count("dirty.top_object_with_generation"); }
+                1 => { doc.add_object(gen_obj(&mut r, 3)); c.count("dirty.added"); }
+                2 => { let keys: Vec<_> = doc.objects.keys().cloned().collect(); if !keys.is_empty() { let k = *r.pick(&keys); doc.objects.remove(&k); c.count("dirty.removed"); } }
+                3 => { let keys: Vec<_> = doc.objects.keys().cloned().collect(); if !keys.is_empty() { let k = *r.pick(&keys); doc.objects.insert(k, gen_obj(&mut r, 3)); c.count("dirty.replaced"); } }
+                _ => { let id = (doc.max_id, 1 + r.below(2) as u16); if doc.max_id > 0 && !doc.objects.keys().any(|k| k.0 == doc.max_id) { doc.objects.insert(id, gen_obj(&mut r, 2)); c.count("dirty.generation_at_max_id"); } }
+            }
+        }
+        let stream = if r.chance(1, 4) { !first_stream } else { first_stream };
+        if stream != first_stream { c.count("dirty.kind_switched"); }
+        doc.reference_table.cross_reference_type = if stream { XrefType::CrossReferenceStream } else { XrefType::CrossReferenceTable };
+        let kind = if stream { "stream" } else { "table" };
+        c.nontrivial(&format!("d{}", i));
+        let before = doc.clone();
+        let req = doc_request(kind, &doc);
+        let mut buf = Vec::new();
+        match guard(|| doc.save_to(&mut buf)) {
+            Ok(Ok(())) => {
+                c.corr(req, format!("ok {} {} {}", hex_tok(&buf), doc.max_id, show_obj(&Object::Dictionary(doc.trailer.clone()))));
+                c.corr(format!("load {}", hex_tok(&buf)), load_reply(&buf));
+                match guard(|| Document::load_mem(&buf)) {
+                    Ok(Ok(back)) => if let Some(diff) = compare_docs(&before, &back, stream) {
+                        c.oracle_fail("doc-rt", &format!("document saved before, edited, saved again: {}", diff), json!({"file": hex(&buf), "kind": kind}));
+                    },
+                    Ok(Err(e)) => c.oracle_fail("doc-rt:load-error", &format!("re-saved file does not load: {:?}", e), json!({"file": hex(&buf), "kind": kind})),
+                    Err((site, msg)) => c.oracle_fail(&format!("panic@{}", site), &msg, json!({"file": hex(&buf)})),
+                }
+            }
+            Ok(Err(_)) => { c.corr(req, "err".into()); c.count("dirty.save_error"); }
+            Err((site, msg)) => c.oracle_fail(&format!("panic@{}", site), &msg, json!({"kind": kind})),
+        }
+    }
+}
 
 fn documents(c: &mut Ctx) {
     let n = c.n(300, 5000);
